@@ -10,9 +10,7 @@ Finished and in the library (Lemmas/C08Text.lean):
 Still needed, in this order:
  2. `Clean (piecesText …)` from clean children and per-template facts (literal pieces ASCII without newline, last piece a
     child) — decidable over the regenerated table; then `post_clean` removes the `ppPostProcessing` in `visit_bin/pre`.
- 3'. for a parent other than `times`: `genBr (.bin K) c i true = genBr (.bin K) c i false` for all heads of the table
-    (by `decide`; depends on the extracted rule) — then `bracketRule_ofExpr` gives annotW's decision for every parent,
-    because `chainPure … K …` and `isProductChain` may differ only there.
+ 3'. DONE in round 7: `flag_irrelevant`, `bracketRule_annotW` (bracketRule on nodes = annotW's decision for every parent).
  4. the induction on `e` (atoms: hypothesis that the atom nodes print to clean texts, are never parenthesised and look
     like identifiers to the rule = `hatom` of `bracketRule_ofExpr`; fuel ≥ depth).
 -/
